@@ -422,6 +422,8 @@ def rule_no_identity_in_messages(ctx, rep, rid: str) -> None:
                     uses = [u for u in f.own_nodes() if isinstance(u, ast.Name) and u.id == nm and isinstance(u.ctx, ast.Load)]
                     def _ok(u):
                         q = getattr(u, "_parent", None)
+                        if isinstance(q, ast.Subscript) and q.slice is u:
+                            return True  # a dictionary key (d[key] = v, del d[key], d[key]): which slot, never a value a script sees
                         return (isinstance(q, ast.Compare) and any(isinstance(o, (ast.In, ast.NotIn)) for o in q.ops)) or (isinstance(q, ast.Call) and isinstance(q.func, ast.Attribute) and q.func.attr in ("add", "discard", "remove", "append", "pop"))
                     if uses and all(_ok(u) for u in uses):
                         continue
